@@ -10,6 +10,34 @@ CHECKS = {
   text="TLC checks exhaustively that the implementation-shaped chunk machine refines the property definition Whole(text, processors) for every text of length <=5 (thorough 6) over {x, space, CR, LF}, every chunking (incl. empty chunks and cuts inside CRLF) and 11 processor lists; every terminal state is replayed through the real _generate_with_line_buffer, and thousands of longer/unicode executions of the real code (protected loop and public generate_all path) are judged by the trace spec. Bounded-exhaustive for the design, sampled for long texts.",
   note=TB + "Python re \\s equals LinePP!WS (self-checked); chunk boundaries of the public path are those of a for-loop template."),
 }
+
+WIRE = TB + "gcc/g++ (clang for sanitizer builds) on little-endian x86-64; the generated driver glue (vf/harness_c*.py, harness_py.py); float narrowing accepted when faithful."
+CHECKS.update({
+ "C01": dict(cat="model_checking", ref="DESIGN.md §6 C01",
+  technique="explicit TLA+ wire-format spec (DsdlWire/Ieee/Bits) as oracle; TLC design theorems (WireDesign); trace validation of recorded calls of generated C/C++/Python serializers (CodecTrace)",
+  text="The DSDL wire format is an explicit TLA+ specification; TLC checks its design theorems exhaustively over a bounded type/value universe, and every serialization call recorded from generated C (3 option sets), C++ (4 standards/option sets) and Python code - enumerated small universe plus seeded random types x boundary, random, out-of-range and invalid values - is validated by TLC against Ser(t, v). Exhaustive only for the bounded universe; sampled beyond.",
+  note=WIRE),
+ "C02": dict(cat="model_checking", ref="DESIGN.md §6 C02",
+  technique="TLA+ Des operator (zero extension, truncation, delimiter bounds, error kinds) as oracle; TLC theorems ZeroExtension/Truncation; trace validation of recorded deserializer calls",
+  text="Des(t, bytes) is specified in TLA+ (implicit zero extension/truncation, sign extension, delimiter headers bounding nested objects, error kinds, consumed size). TLC proves the zero-extension/truncation theorems on the bounded universe and validates every recorded deserialization of valid, truncated, extended, bit-flipped, random, empty and NULL inputs on all targets.",
+  note=WIRE),
+ "C03": dict(cat="model_checking", ref="DESIGN.md §6 C03",
+  technique="TLA+ trace spec with a history variable holding the first outcome per stimulus (oracle-free cross-target/option agreement) + decode/re-encode chains judged by Ser o Des; TLC RoundTrip theorem",
+  text="One shared list of values and byte strings goes through the full product of targets and option sets; the TLA+ trace spec keeps the first outcome of each stimulus and rejects any later disagreement (this clause does not consult the wire model), and judges decode->re-encode chains with Ser(Des(b)). The RoundTrip theorem is model-checked on the bounded universe.",
+  note=WIRE),
+ "C04": dict(cat="model_checking", ref="DESIGN.md §6 C04, §7",
+  technique="trace validation of call/return histories recorded under ASan/UBSan/LSan: every call returns with a documented code; TLA+ history variable enforces prior-state independence (fresh/poisoned/reused destination)",
+  text="TLA+ decides totality (every call returns), documented error codes, rejection of invalid objects and prior-state independence (same bytes decoded into fresh, poisoned and reused objects must agree) on traces recorded from sanitizer builds with exact-size heap buffers. Memory safety itself is observed by the sanitizer runtimes, not decided by the model: a report is a call without return, which the trace spec rejects.",
+  note=WIRE + " clang 14 ASan/UBSan/LSan."),
+ "C05": dict(cat="model_checking", ref="DESIGN.md §6 C05",
+  technique="TLA+ size arithmetic (MaxBits/BufBytes/Extent) as oracle for exported constants; TLC SizeBounds theorem; trace validation of meta records and of serializations into buffers of size need-1/need/need+1/0",
+  text="Extent and buffer-size constants exported by generated C, C++ and Python are compared by TLC with the size arithmetic of the TLA+ wire spec for every type of the universe; serializations into too-small / exact / larger buffers are validated (refusal iff too small, guard bytes intact). Constants, names and port-IDs are not covered yet (stated in evidence).",
+  note=WIRE),
+ "C16": dict(cat="model_checking", ref="DESIGN.md §6 C16",
+  technique="TLA+/TLC exhaustive model of template lookup (BFS + cache) and of the environment registry; I=>P refinement; TLC-emitted histories replayed on the real loader; trace validation of real-hierarchy runs",
+  text="Lookup over all subset pairs and histories <= 3 of 5/6-class hierarchies is exhaustive in the model and fully replayed on the real DSDLTemplateLoader; the real 32-class PyDSDL hierarchy, all instance tests/aliases and all environment additions are enumerated over all real names and sampled for combinations, every record judged by the TLA+ trace spec.",
+  note=TB + "Python's __bases__ as the class relation, PyDSDL as the instance source."),
+})
 NOT_YET = {}
 props = [json.loads(l) for l in open(V / "properties.jsonl")]
 checks, na = [], []
